@@ -73,6 +73,11 @@ func c11Batches(r *Rng, n int, partition string, T int) []int {
 			}
 		case "straddle":
 			b = pickOne(r, []int{T - 1, T, T + 1, 1, 2*T + 1, 0})
+		case "multipart": // a renderer made of several parts, each part ends with Close (as every library renderer does)
+			b = pickOne(r, []int{1, 3, 10, T - 1, T, T + 2, r.I(2*T + 2)})
+			if len(out) > 0 && out[len(out)-1] >= 0 && r.P(0.4) {
+				out = append(out, -1)
+			}
 		default:
 			b = r.I(2*T + 2)
 		}
@@ -114,7 +119,7 @@ func (s *c11R3) Render(_ sdf.SDF3, out sdf.Triangle3Writer) {
 			ts[i] = c11Tri(id)
 		}
 		out.Write(ts)
-	})
+	}, func() { out.Close() })
 	out.Close()
 }
 
@@ -131,12 +136,12 @@ func (s *c11R2) Render(_ sdf.SDF2, out sdf.Line2Writer) {
 			ls[i] = c11Line(id)
 		}
 		out.Write(ls)
-	})
+	}, func() { out.Close() })
 	out.Close()
 }
 
 // c11Produce runs the producers; write is called once per batch.
-func c11Produce(plan *c11Plan, r *Rng, write func(ids []int)) {
+func c11Produce(plan *c11Plan, r *Rng, write func(ids []int), closeFn func()) {
 	P := plan.Producers
 	var wg sync.WaitGroup
 	for p := 0; p < P; p++ {
@@ -147,6 +152,10 @@ func c11Produce(plan *c11Plan, r *Rng, write func(ids []int)) {
 		run := func(p int) {
 			next := p
 			for bi, b := range plan.Batches[p] {
+				if b < 0 {
+					closeFn() // end of one part of a multi-part render
+					continue
+				}
 				ids := make([]int, b)
 				for i := range ids {
 					ids[i] = next
@@ -251,7 +260,7 @@ func shardC11(c *Ctx, shard, nshards int) {
 	dir := scratch()
 	defer cleanupScratch()
 	sinks := []string{"ToTriangles", "Triangle3Buffer", "Line2Buffer", "ToSTL", "To3MF", "ToDXF", "ToSVG"}
-	partitions := []string{"singles", "one", "empties", "straddle", "random"}
+	partitions := []string{"singles", "one", "empties", "straddle", "random", "multipart"}
 	caseNo := 0
 	shape3, _ := sdf.Sphere3D(1)
 	shape2, _ := sdf.Circle2D(1)
@@ -271,6 +280,9 @@ func shardC11(c *Ctx, shard, nshards int) {
 		for _, n := range counts {
 			for pi, part := range partitions {
 				for _, P := range []int{1, 2, 3, 8} {
+					if part == "multipart" && P != 1 {
+						continue // Close from one producer while others write has no defined meaning
+					}
 					if !c.Quick && n > 2*T+1 && (pi+n+P)%4 != 0 {
 						continue // thin out the large thorough grid
 					}
